@@ -540,11 +540,19 @@ func (e *Engine) concretize(t *Term, cap int) (uint64, bool) {
 		}
 	}
 	if overflow && e.truncEnum && len(vals) > cap {
-		// more feasible values than the cap: continue with three of the values found (smallest,
-		// median, largest) instead of dropping the path; the rest of the range is outside the
+		// more feasible values than the cap: continue with the smallest and the largest feasible
+		// value (binary search with the solver) and one value in between instead of dropping the path; the rest of the range is outside the
 		// exploration and counted in evidence (enumerations_truncated)
 		sort.Slice(vals, func(i, j int) bool { return vals[i] < vals[j] })
-		vals = []uint64{vals[0], vals[len(vals)/2], vals[len(vals)-1]}
+		lo, hi := e.extreme(t, vals[0], false), e.extreme(t, vals[len(vals)-1], true)
+		mid := vals[len(vals)/2]
+		vals = []uint64{lo}
+		if mid != lo && mid != hi {
+			vals = append(vals, mid)
+		}
+		if hi != lo {
+			vals = append(vals, hi)
+		}
 		e.stats.Truncated++
 		overflow = false
 	}
@@ -864,4 +872,55 @@ func boundOf(c *Term) (x *Term, kind int, lim uint64, ok bool) {
 		return l, 0, r.val + 1, true
 	}
 	return nil, 0, 0, false
+}
+
+
+// extreme finds the smallest (largest) feasible unsigned value of t under the path condition by
+// binary search, starting from a known feasible value. An inconclusive solver answer stops the
+// search at the best value known so far (which is feasible).
+func (e *Engine) extreme(t *Term, known uint64, wantMax bool) uint64 {
+	best := known
+	if wantMax {
+		lo, hi := known, ^uint64(0)
+		if t.w < 64 {
+			hi = (uint64(1) << uint(t.w)) - 1
+		}
+		for lo < hi {
+			mid := lo + (hi-lo+1)/2
+			r := e.check(e.ts.Ule(e.ts.Const(t.w, mid), t))
+			if r == "sat" {
+				lo = mid
+				best = mid
+				if v := e.solver.Values([]*Term{t})[0]; v > lo {
+					lo, best = v, v
+				}
+			} else if r == "unsat" {
+				hi = mid - 1
+			} else {
+				return best
+			}
+		}
+		return best
+	}
+	lo, hi := uint64(0), known
+	for lo < hi {
+		mid := lo + (hi-lo)/2
+		r := e.check(e.ts.Ule(t, e.ts.Const(t.w, mid)))
+		if r == "sat" {
+			hi = mid
+			best = mid
+			if v := e.solver.Values([]*Term{t})[0]; v < hi {
+				hi, best = v, v
+			}
+		} else if r == "unsat" {
+			lo = mid + 1
+		} else {
+			return best
+		}
+	}
+	if lo == hi && best > lo {
+		// lo is the minimum only if it is feasible: the loop invariant keeps hi feasible
+		best = hi
+	}
+	return best
 }
